@@ -35,10 +35,26 @@ def run(pid, tier, seed, replay=None):
     ps = cp.ParseStream(chk, None, 50 if quick else 500, 3, 4, max_trees=150, n_families=30 if quick else 300)
     cfgs = [{'la': la, 'one': o, 'cost': c, 'rec': r, 'match': m} for la in (0, 1, 2) for o in (0, 1) for c in (0, 1) for r in (0, 1) for m in (1, 3)]
     for i, (g, strict, w) in enumerate(ps.pairs):
+        if rng.random() < 0.08:
+            # abstract nodes with an empty name (possible through the callback interface)
+            g = gen.Gram(g.terms, [(l, r, ('' if (a is not None and rng.random() < 0.6) else a), c, t) for (l, r, a, c, t) in g.rules])
         for ci, cfg in enumerate(rng.sample(cfgs, 3)):
             am = rng.choice([0, 0, 1, 2])
-            scripts.append(('parse', 'p%d_%d' % (i, ci), yvlib.simple_case('p%d_%d' % (i, ci), g.as_dict(), 1 if strict else 0, cfg, gen.codes_of(g, w), allocmode=am),
-                            {'grammar': yvlib.grammar_text(g.as_dict()), 'tokens': ' '.join(w), 'cfg': cfg}))
+            v = yvlib.vary((seed, i, ci), g.as_dict(), gen.codes_of(g, w))
+            scripts.append(('parse', 'p%d_%d' % (i, ci), yvlib.simple_case('p%d_%d' % (i, ci), g.as_dict(), 1 if strict else 0, cfg, gen.codes_of(g, w), allocmode=am, variation=v),
+                            {'grammar': yvlib.grammar_text(g.as_dict()), 'tokens': ' '.join(w), 'cfg': cfg, 'variation': sorted(v)}))
+    # the smallest tables: empty input, all parses, chains of rules with abstract nodes over the empty string
+    for k in range(20 if quick else 200):
+        d = rng.randint(3, 10)
+        rules = [('N%d' % j, ['N%d' % (j + 1)], 'n%d' % j, rng.randint(0, 2), [0]) for j in range(d)]
+        rules.append(('N%d' % d, [], rng.choice([None, 'e']), 0, None))
+        rules.append(('N%d' % d, ['x'], None, 0, [0]))
+        gch = gen.Gram([('x', 120)], rules)
+        for w in ([], ['x']):
+            cfg = {'one': rng.choice([0, 0, 1]), 'cost': rng.choice([0, 1]), 'la': rng.choice([0, 1, 2])}
+            cid = 'tiny%d_%d' % (k, len(w))
+            scripts.append(('tiny', cid, yvlib.simple_case(cid, gch.as_dict(), 0, cfg, gen.codes_of(gch, w)),
+                            {'grammar': yvlib.grammar_text(gch.as_dict())[:300], 'tokens': ' '.join(w), 'cfg': cfg}))
     P = ca.pool()
     for hi in range(150 if quick else 1500):
         h = ca.Hist(rng, P, hi, 14)
